@@ -1,4 +1,4 @@
-import GeomV.C05.GenLib
+import GeomV.C05.GenLibS
 /-!
 REGENERATED on every run of `bin/check C05` by harness/cmd/c05/extract.go from encoding/wkb/*.go and
 encoding/hex/hex.go of the tree under test — do not edit.  `GeomV/C05/Tie.lean` proves these definitions
@@ -230,6 +230,113 @@ def hex_Decode (Read : ReadFn) (s : List Char) : Except HErr (BGeom) := do
 def hex_Encode (Write : WriteFn) (g : BGeom) (byteOrder : BO) : Except HErr (List Char) := do
   let wkb ← liftWkb (Encode Write g byteOrder)
   pure (hexEncodeToString wkb)
+
+/-! ### the streaming path: the same Go functions with the `io.Reader` as ANY byte source `S : Stream.Src σ`
+(every `binary.Read` = one `io.ReadFull` of the value's size from `S`, then the in-memory decoding: `GenLibS.lean`) -/
+
+/-- `encoding/wkb/point.go`: `func(r io.Reader, byteOrder binary.ByteOrder) (geom.Geom, error)` as `pointReader` -/
+def pointReaderS {σ : Type} (S : Stream.Src σ) (byteOrder : BO) (bs : σ) : Except SErr (BGeom × σ) := do
+  let point : Pt UInt64 := (⟨0, 0⟩ : Pt UInt64)
+  let (point, bs) ← binReadPointS S byteOrder bs
+  pure ((.point point), bs)
+
+/-- `encoding/wkb/point.go`: `func(r io.Reader, byteOrder binary.ByteOrder) ([]geom.Point, error)` as `readPoints` -/
+def readPointsS {σ : Type} (S : Stream.Src σ) (byteOrder : BO) (bs : σ) : Except SErr (List (Pt UInt64) × σ) := do
+  let (numPoints, bs) ← binReadU32S S byteOrder bs
+  let points : List (Pt UInt64) := ([] : List (Pt UInt64))
+  let remaining : Nat := numPoints
+  let (remaining, points, bs) ← whileLoopS loopBudget (fun (remaining, points, bs) => decide (remaining > 0)) (remaining, points, bs) (fun (remaining, points, bs) => do
+      let chunk : List (Pt UInt64) := (mkPoints (minUint32 remaining maxChunk))
+      let (chunk, bs) ← binReadPointsS S byteOrder chunk bs
+      let points : List (Pt UInt64) := (points ++ chunk)
+      let remaining : Nat := u32sub remaining (u32len chunk.length)
+      pure (remaining, points, bs))
+  pure (points, bs)
+
+/-- `encoding/wkb/linestring.go`: `func(r io.Reader, byteOrder binary.ByteOrder) (geom.Geom, error)` as `lineStringReader` -/
+def lineStringReaderS {σ : Type} (S : Stream.Src σ) (byteOrder : BO) (bs : σ) : Except SErr (BGeom × σ) := do
+  let (points, bs) ← readPointsS S byteOrder bs
+  pure ((.lineString points), bs)
+
+/-- `encoding/wkb/polygon.go`: `func(r io.Reader, byteOrder binary.ByteOrder) (geom.Geom, error)` as `polygonReader` -/
+def polygonReaderS {σ : Type} (S : Stream.Src σ) (byteOrder : BO) (bs : σ) : Except SErr (BGeom × σ) := do
+  let (numRings, bs) ← binReadU32S S byteOrder bs
+  let rings : List (List (Pt UInt64)) := ([] : List (List (Pt UInt64)))
+  let (rings, bs) ← loopNS numRings (rings, bs) (fun (rings, bs) => do
+      let (points, bs) ← readPointsS S byteOrder bs
+      let rings : List (List (Pt UInt64)) := (rings ++ [points])
+      pure (rings, bs))
+  pure ((.polygon rings), bs)
+
+/-- `encoding/wkb/multipoint.go`: `func(r io.Reader, byteOrder binary.ByteOrder) (geom.Geom, error)` as `multiPointReader` -/
+def multiPointReaderS {σ : Type} (S : Stream.Src σ) (Read : ReadFnS σ) (byteOrder : BO) (bs : σ) : Except SErr (BGeom × σ) := do
+  let (numPoints, bs) ← binReadU32S S byteOrder bs
+  let points : List (Pt UInt64) := ([] : List (Pt UInt64))
+  let (points, bs) ← loopNS numPoints (points, bs) (fun (points, bs) => do
+      let (g, bs) ← Read bs
+      let point ← liftS (asPoint g)
+      let points : List (Pt UInt64) := (points ++ [point])
+      pure (points, bs))
+  pure ((.multiPoint points), bs)
+
+/-- `encoding/wkb/multilinestring.go`: `func(r io.Reader, byteOrder binary.ByteOrder) (geom.Geom, error)` as `multiLineStringReader` -/
+def multiLineStringReaderS {σ : Type} (S : Stream.Src σ) (Read : ReadFnS σ) (byteOrder : BO) (bs : σ) : Except SErr (BGeom × σ) := do
+  let (numLineStrings, bs) ← binReadU32S S byteOrder bs
+  let lineStrings : List (List (Pt UInt64)) := ([] : List (List (Pt UInt64)))
+  let (lineStrings, bs) ← loopNS numLineStrings (lineStrings, bs) (fun (lineStrings, bs) => do
+      let (g, bs) ← Read bs
+      let lineString ← liftS (asLine g)
+      let lineStrings : List (List (Pt UInt64)) := (lineStrings ++ [lineString])
+      pure (lineStrings, bs))
+  pure ((.multiLineString lineStrings), bs)
+
+/-- `encoding/wkb/multipolygon.go`: `func(r io.Reader, byteOrder binary.ByteOrder) (geom.Geom, error)` as `multiPolygonReader` -/
+def multiPolygonReaderS {σ : Type} (S : Stream.Src σ) (Read : ReadFnS σ) (byteOrder : BO) (bs : σ) : Except SErr (BGeom × σ) := do
+  let (numPolygons, bs) ← binReadU32S S byteOrder bs
+  let polygons : List (List (List (Pt UInt64))) := ([] : List (List (List (Pt UInt64))))
+  let (polygons, bs) ← loopNS numPolygons (polygons, bs) (fun (polygons, bs) => do
+      let (g, bs) ← Read bs
+      let polygon ← liftS (asPoly g)
+      let polygons : List (List (List (Pt UInt64))) := (polygons ++ [polygon])
+      pure (polygons, bs))
+  pure ((.multiPolygon polygons), bs)
+
+/-- `encoding/wkb/geometrycollection.go`: `func(r io.Reader, byteOrder binary.ByteOrder) (geom.Geom, error)` as `geometryCollectionReader` -/
+def geometryCollectionReaderS {σ : Type} (S : Stream.Src σ) (Read : ReadFnS σ) (byteOrder : BO) (bs : σ) : Except SErr (BGeom × σ) := do
+  let (numGeometries, bs) ← binReadU32S S byteOrder bs
+  let geoms : List BGeom := ([] : List BGeom)
+  let (geoms, bs) ← loopNS numGeometries (geoms, bs) (fun (geoms, bs) => do
+      let (g, bs) ← Read bs
+      let member ← liftS (asGeom g)
+      let geoms : List BGeom := (geoms ++ [member])
+      pure (geoms, bs))
+  pure ((.collection geoms), bs)
+
+/-- the dispatch table on the streaming path -/
+def wkbReadersS {σ : Type} (S : Stream.Src σ) (Read : ReadFnS σ) : List (Nat × ReaderFnS σ) :=
+  [(wkbPoint, (pointReaderS S)),
+   (wkbLineString, (lineStringReaderS S)),
+   (wkbPolygon, (polygonReaderS S)),
+   (wkbMultiPoint, (multiPointReaderS S Read)),
+   (wkbMultiLineString, (multiLineStringReaderS S Read)),
+   (wkbMultiPolygon, (multiPolygonReaderS S Read)),
+   (wkbGeometryCollection, (geometryCollectionReaderS S Read))]
+
+/-- `encoding/wkb/wkb.go`: `func(r io.Reader) (geom.Geom, error)` as `Read` -/
+def ReadS {σ : Type} (S : Stream.Src σ) (Read : ReadFnS σ) (bs : σ) : Except SErr (BGeom × σ) := do
+  let (wkbByteOrder, bs) ← binReadU8S S BO.ndr bs
+  let byteOrder ← (if wkbByteOrder = wkbXDR then pure BO.xdr else if wkbByteOrder = wkbNDR then pure BO.ndr else throw (SErr.wkb Err.badOrder) : Except SErr BO)
+  let (wkbGeometryType, bs) ← binReadU32S S byteOrder bs
+  match mapGet (wkbReadersS S Read) wkbGeometryType with
+  | some reader => do
+      reader byteOrder bs
+  | none => do
+      throw (SErr.wkb Err.badType)
+
+/-- `wkb.Read` behind any byte source, the recursion unrolled `fuel` times -/
+def readS {σ : Type} (S : Stream.Src σ) : Nat → ReadFnS σ
+  | 0 => fun _ => .error (.wkb .fuel)
+  | fuel+1 => ReadS S (readS S fuel)
 
 /-! The recursion Read → reader → Read and Write → writer → Write, unrolled (fixed text of the translator). -/
 
